@@ -485,6 +485,7 @@ class Origins:
         self.upvars = set()      # closure env field indices (as strings)
         self.locals = set()      # every local visited
         self.binops = []         # (op, stmt)
+        self.unops = []          # (op, stmt)  Not / Neg / PtrMetadata
         self.aggs = []           # aggregate kinds
         self.casts = []
         self.downcasts = set()   # enum variant names projected on the way (e.g. 'Ok', 'Some')
@@ -589,6 +590,8 @@ def provenance(fn, start, pass_through=PASS_THROUGH, follow_all_call_args=False,
                 rv = r['rv']
                 if rv == 'binop':
                     org.binops.append((r['op'], node))
+                if rv == 'unop':
+                    org.unops.append((r['op'], node))
                 if rv == 'agg':
                     org.aggs.append(r['kind'])
                 if rv == 'cast':
@@ -691,6 +694,7 @@ def deep_origins(prog, fn, start, depth=3, _seen=None, follow_all=True):
     out.calls += org.calls
     out.consts += org.consts
     out.binops += org.binops
+    out.unops += org.unops
     out.downcasts |= org.downcasts
     out.locals |= {(fn.name, l) for l in org.locals}
     if depth <= 0:
@@ -729,6 +733,7 @@ def _merge(a, b):
     a.calls += b.calls
     a.consts += b.consts
     a.binops += b.binops
+    a.unops += b.unops
     a.downcasts |= b.downcasts
     a.locals |= b.locals
     a.params |= b.params
